@@ -611,6 +611,9 @@ pub fn run(tier: &str) -> i32 {
     ev.set("snapshots_completed", json!(s.snapshots_completed));
     ev.set("op_state_transitions", json!(s.transitions.iter().cloned().collect::<Vec<_>>()));
     ev.set("known_findings_seen", json!(v.known_seen()));
+    // Engine R: the same oracle over real nun-db processes (src/bin/main.rs, TCP links, signals, timer thread)
+    let real = crate::realparts::c06_real(&v, if thorough { 96 } else { 8 }, seed());
+    ev.set("real_processes", real.to_json());
     ev.violations = v.violation_count();
     ev.assumptions = vec![
         "restart = drop of all in-memory state after the last completed system call, then the start-up sequence of src/bin/main.rs mirrored by the harness (load_keys_map_from_disk, is_oplog_valid, clean metadata if invalid, Databases::new, load_all_dbs)".into(),
@@ -619,6 +622,10 @@ pub fn run(tier: &str) -> i32 {
     ev.write();
     cleanup_scratch();
     let code = v.finish(tier);
+    if code == 0 && real.runs > 0 && (real.runs - real.inconclusive) * 2 < real.runs {
+        println!("INCONCLUSIVE property=C06 reason=the real-process part could judge only {} of {} runs", real.runs - real.inconclusive, real.runs);
+        return 2;
+    }
     if code == 0 && (s.nontrivial.len() < 200 || s.restarts_compared < 1000) {
         println!("INCONCLUSIVE property=C06 reason=coverage floor not met");
         return 2;
